@@ -511,3 +511,171 @@ func attrValueTypes(w *World, v ssa.Value, depth int, seen map[ssa.Value]bool) m
 	}
 	return out
 }
+
+// C02|C08/kind-by-rule-not-by-text: which kind of field a written type stands for is decided by the parse tree, not by the spelling.
+//
+// `type: basicType | fixedString | dynamicString` - the parser has already said whether `char[]` is the dynamic string and `char[8]`
+// the fixed one. A routine that decides the same from the text of the type (`HasPrefix(text, "char[")` ahead of `text == "char[]"`)
+// re-implements the lexer and gets the overlap wrong: one spelling of a kind is then compiled as another kind, and the decoders of
+// every target read the field with the wrong layout. A test on the text may select *within* a kind (`zchar` is the fixed string with
+// NUL padding). Decided: for every branch whose condition compares the text of a type node (GetText of the type rule's contexts)
+// - ==, !=, strings.HasPrefix / HasSuffix / Contains / EqualFold, a switch on the text - the kinds of attribute objects (scalar,
+// fixed string, dynamic string) built behind its two edges are the same.
+func kindByRuleNotByText(w *World, r *Report, prop string) {
+	rule := prop + "/kind-by-rule-not-by-text"
+	typeCtx := map[string]bool{"TypeContext": true, "FixedStringContext": true, "DynamicStringContext": true, "BasicTypeContext": true}
+	var fromTypeText func(v ssa.Value, depth int, seen map[ssa.Value]bool) bool
+	fromTypeText = func(v ssa.Value, depth int, seen map[ssa.Value]bool) bool {
+		if depth > 8 || seen[v] {
+			return false
+		}
+		seen[v] = true
+		switch x := v.(type) {
+		case *ssa.Call:
+			cc := x.Call
+			name := ""
+			var recv ssa.Value
+			if cc.IsInvoke() {
+				name, recv = cc.Method.Name(), cc.Value
+			} else if f := cc.StaticCallee(); f != nil {
+				name = f.Name()
+				if len(cc.Args) > 0 {
+					recv = cc.Args[0]
+				}
+				// text helpers: the text of their string arguments
+				if pk := f.Pkg; pk != nil && (pk.Pkg.Path() == "strings") {
+					for _, a := range cc.Args {
+						if fromTypeText(a, depth+1, seen) {
+							return true
+						}
+					}
+					return false
+				}
+			}
+			if name == "GetText" && recv != nil && typeCtx[grammarCtxName(recv.Type())] {
+				return true
+			}
+		case *ssa.Phi:
+			for _, e := range x.Edges {
+				if fromTypeText(e, depth+1, seen) {
+					return true
+				}
+			}
+		case *ssa.Slice:
+			return fromTypeText(x.X, depth+1, seen)
+		case *ssa.BinOp:
+			return fromTypeText(x.X, depth+1, seen) || fromTypeText(x.Y, depth+1, seen)
+		case *ssa.UnOp:
+			if al := cellOf(x); al != nil {
+				stores, _ := cellStores(al)
+				for _, st := range stores {
+					if fromTypeText(st.Val, depth+1, seen) {
+						return true
+					}
+				}
+			}
+		case *ssa.Parameter:
+			// a text handed down: the arguments at the call sites
+			fn := x.Parent()
+			idx := -1
+			for i, q := range fn.Params {
+				if q == x {
+					idx = i
+				}
+			}
+			if n := w.CallGraph().Nodes[fn]; n != nil && idx >= 0 {
+				for _, e := range n.In {
+					if e.Site != nil && e.Site.Common().StaticCallee() == fn && idx < len(e.Site.Common().Args) {
+						if fromTypeText(e.Site.Common().Args[idx], depth+1, seen) {
+							return true
+						}
+					}
+				}
+			}
+		}
+		return false
+	}
+	kindOf := func(ins ssa.Instruction) string {
+		al, ok := ins.(*ssa.Alloc)
+		if !ok {
+			return ""
+		}
+		pt, ok := al.Type().(*types.Pointer)
+		if !ok {
+			return ""
+		}
+		switch n := modelTypeName(pt.Elem()); n {
+		case "BasicFieldAttribute", "FixedStringFieldAttribute", "DynamicStringFieldAttribute":
+			return n
+		}
+		return ""
+	}
+	n := 0
+	for _, fn := range parsePhaseFuncs(w) {
+		if isGeneratorFunc(fn) || recvNamedCore(fn) == "PacketDslFormattor" {
+			continue
+		}
+		cnt := 0
+		for _, b := range fn.Blocks {
+			cond := branchCond(b)
+			if cond == nil {
+				continue
+			}
+			c := cond
+			for {
+				if u, ok := c.(*ssa.UnOp); ok && u.Op == token.NOT {
+					c = u.X
+					continue
+				}
+				break
+			}
+			isText := false
+			switch x := c.(type) {
+			case *ssa.BinOp:
+				if (x.Op == token.EQL || x.Op == token.NEQ) && isStringType(x.X.Type()) {
+					isText = fromTypeText(x.X, 0, map[ssa.Value]bool{}) || fromTypeText(x.Y, 0, map[ssa.Value]bool{})
+				}
+			case *ssa.Call:
+				if f := x.Call.StaticCallee(); f != nil && f.Pkg != nil && f.Pkg.Pkg.Path() == "strings" {
+					switch f.Name() {
+					case "HasPrefix", "HasSuffix", "Contains", "EqualFold":
+						isText = fromTypeText(x, 0, map[ssa.Value]bool{})
+					}
+				}
+			}
+			if !isText || len(b.Succs) != 2 {
+				continue
+			}
+			sets := [2]map[string]bool{{}, {}}
+			for _, bb := range fn.Blocks {
+				for s := 0; s < 2; s++ {
+					if edgeDominates(b, s, bb) {
+						for _, ins := range bb.Instrs {
+							if k := kindOf(ins); k != "" {
+								sets[s][k] = true
+							}
+						}
+					}
+				}
+			}
+			if len(sets[0]) == 0 && len(sets[1]) == 0 {
+				continue
+			}
+			n++
+			cnt++
+			key := fmt.Sprintf("%s: text test #%d of a written type selects within one kind", fnKey(fn), cnt)
+			same := len(sets[0]) == len(sets[1])
+			for k := range sets[0] {
+				if !sets[1][k] {
+					same = false
+				}
+			}
+			if same {
+				r.pass(rule, key, w.instrPos(b.Instrs[len(b.Instrs)-1]), "")
+			} else {
+				r.fail(rule, key, w.instrPos(b.Instrs[len(b.Instrs)-1]), fmt.Sprintf("behind one edge of a comparison of a type's text the routine builds %v, behind the other %v: the kind of the field is decided by the spelling of its type, not by the alternative of the grammar rule the parser matched - a spelling the comparison does not anticipate (`char[]` starts with `char[`) is compiled as another kind", sortedBoolKeys(sets[0]), sortedBoolKeys(sets[1])))
+			}
+		}
+	}
+	r.note("%s: text tests of written types examined: %d", rule, n)
+}
